@@ -672,7 +672,6 @@ func (c *skCtx) ret(r *ast.ReturnStmt) string {
 	return c.unknown(r)
 }
 
-
 // ---- encoders ------------------------------------------------------------------------------------------------------
 
 type encCtx struct {
